@@ -5,7 +5,7 @@ from spec import c03 as S
 from checks.nskel import SKELETONS, LONG
 
 BOUNDS = {
-    "quick": "22 URL skeletons x every hole string of length 0..1 (0..2 for the query-escape, redirect and the two path holes after a '%') over all code points (hex digits only for the two holes that follow a '%' in the path) x quoted / strip_suffix in {F,T}; platform_aware=False",
+    "quick": "23 URL skeletons x every hole string of length 0..1 (0..2 for the query-escape, redirect and the two path holes after a '%') over all code points (hex digits only for the two holes that follow a '%' in the path) x quoted / strip_suffix in {F,T}; platform_aware=False",
     "thorough": "holes of length 0..2 (3 for path / query / fragment / redirect holes)",
 }
 STUBS = ["see C01 (urlsplit etc. interpreted; UTF-8 / quote / table models; exact model of urlsplit's NFKC check; idna cut)"]
@@ -15,13 +15,13 @@ ASSUMPTIONS = ["inputs on which a function raises are skipped here (never-raises
 
 
 # skeletons of this check only: an escape that is a whole path segment (an escaped dot segment)
-SKELS = list(SKELETONS) + [("path-escape-seg", "http://x.fr/a/%", "/b")]
+SKELS = list(SKELETONS) + [("path-escape-seg", "http://x.fr/a/%", "/b"), ("query-escape-redirect-key", "http://a.fr/?%", "rl=http://b.fr/x")]
 
 
 def hier(st, skel, n, flag):
     name, pre, post = SKELS[skel]
     # right after a '%' the interesting fillers are hex digits: restrict the hole to them (stated in BOUNDS)
-    u = cat(pre, sym_str(st, "s", n, HEXDOM if name.startswith(("path-escape", "fragment-escape")) else None), post)
+    u = cat(pre, sym_str(st, "s", n, HEXDOM if name.startswith(("path-escape", "fragment-escape", "query-escape-redirect")) else None), post)
     run_prop(st, "normalize_after_canonicalize", S.normalize_after_canonicalize, u, flag, False)
     run_prop(st, "fingerprint_after_canonicalize", S.fingerprint_after_canonicalize, u, flag, False)
     run_prop(st, "fingerprint_after_normalize", S.fingerprint_after_normalize, u, flag, False)
@@ -39,7 +39,7 @@ def qorder(st, k1, k2, flag):
 QORDER_QUICK = ()
 QORDER_ALL = (("%C3e", "c"), ("E", "c"), ("c", "E"), ("c", "c"))
 
-N2 = ("path-escape-index", "path-escape-amp", "query-escape", "redirect", "no-scheme-port", "fragment-escape", "no-scheme-redirect", "path-escape-seg")
+N2 = ("path-escape-index", "path-escape-amp", "query-escape", "redirect", "no-scheme-port", "fragment-escape", "no-scheme-redirect", "path-escape-seg", "query-escape-redirect-key")
 
 
 def items(tier):
